@@ -41,7 +41,7 @@ def sh(cmd, cwd=None, env=None, timeout=3600):
 head = sh("git -C /repo rev-parse HEAD")[1].strip()
 sh(f"git -C {a.wt} checkout -q -- . && git -C {a.wt} clean -fdq && git -C {a.wt} checkout -q --detach {head}")
 res = {"id": a.id, "patch": a.patch, "repo_head": head, "checks": {}}
-penv = dict(os.environ, PYTHONDONTWRITEBYTECODE="1")
+penv = dict(os.environ, PYTHONDONTWRITEBYTECODE="1", PYTHONPATH=a.wt)
 if a.demo:
     rc, out, err = sh(["/venv/bin/python", "-B", os.path.abspath(a.demo)], cwd=a.wt, env=penv)
     res["demo_clean_exit"] = rc
